@@ -336,7 +336,8 @@ def run_group(unit, udir, work, builder, g, tier):
             unwind = unwind.get(tier, unwind.get('quick'))
         res['unwind'] = unwind
         cmd = ['cbmc', inst, '--json-ui', '--trace', '--arch', 'x86_64']
-        cmd += g.get('checks', ['--bounds-check', '--pointer-check', '--div-by-zero-check', '--undefined-shift-check', '--signed-overflow-check'])
+        # cbmc 6 enables bounds/pointer/div-by-zero/signed-overflow/undefined-shift/pointer-primitive checks by default
+        cmd += g.get('checks', [])
         if unwind:
             cmd += ['--unwind', str(unwind), '--unwinding-assertions']
         for k, v in (g.get('unwindset') or {}).items():
@@ -431,10 +432,10 @@ def trace_inputs(trace, harness, wanted):
         if base in wanted or lhs in wanted:
             v = st.get('value', {})
             if fn == harness or st.get('assignmentType') == 'variable' and fn in ('', harness):
-                if 'data' in v:
+                if 'binary' in v and v.get('name') in ('integer', 'boolean', None) :
+                    vals[lhs] = str(int(v['binary'], 2))    # unsigned reading of the bit pattern
+                elif 'data' in v:
                     vals[lhs] = v['data']
-                elif 'binary' in v:
-                    vals[lhs] = str(int(v['binary'], 2))
                 elif 'elements' in v:
                     for e in v['elements']:
                         ev = e.get('value', {})
@@ -613,6 +614,19 @@ def check(prop, tier, seed=0):
             for o in obs[:2]:
                 if len(samples) < 12:
                     samples.append({'unit': r['unit'], 'group': r['group'], 'obligation': o['id'], 'description': o['desc'], 'status': o['status']})
+    # sabotage self-test (vacuity guard 3): thorough tier runs all, quick tier those marked quick
+    selftests = []
+    for n in units:
+        u, _ = load_unit(n)
+        for sb in u.get('sabotage', []):
+            if prop not in sb.get('props', u.get('properties', [])):
+                continue
+            if tier != 'thorough' and not sb.get('quick'):
+                continue
+            ok, detail = run_sabotage(n, sb, tier)
+            selftests.append({'unit': n, 'sabotage': sb['name'], 'caught': ok, 'detail': detail})
+            if not ok:
+                undecided.append('%s: sabotage %s not caught (check is blind): %s' % (n, sb['name'], detail))
     # output
     rc = 0
     for f, r, ob in known:
@@ -633,13 +647,13 @@ def check(prop, tier, seed=0):
         rc = 2
     for u in undecided:
         print('UNDECIDED: ' + u)
-    write_evidence(prop, tier, seed, runs, groups_ev, n_obl, n_dis, samples, bounded_any, len(violations), known, undecided, time.time() - t0)
+    write_evidence(prop, tier, seed, runs, groups_ev, n_obl, n_dis, samples, bounded_any, len(violations), known, undecided, time.time() - t0, selftests)
     print('%s tier=%s units=%s obligations=%d discharged=%d violations=%d known=%d undecided=%d wall=%.1fs -> exit %d'
           % (prop, tier, ','.join(units), n_obl, n_dis, len(violations), len(known), len(undecided), time.time() - t0, rc))
     return rc
 
 
-def write_evidence(prop, tier, seed, runs, groups_ev, n_obl, n_dis, samples, bounded_any, nviol, known, undecided, wall):
+def write_evidence(prop, tier, seed, runs, groups_ev, n_obl, n_dis, samples, bounded_any, nviol, known, undecided, wall, selftests=()):
     level = LEVELS.get(prop, 'other')
     tb, assumes, dropped, extraction = [], [], [], {}
     for ru in runs:
@@ -665,6 +679,7 @@ def write_evidence(prop, tier, seed, runs, groups_ev, n_obl, n_dis, samples, bou
             'cprover_assume_scan': assumes,
             'known_findings_reported': ['%s: %s' % (ob['id'], f['text']) for f, r, ob in known],
             'undecided': undecided,
+            'sabotage_selftests': list(selftests),
             'samples': samples or [{'note': 'no obligations generated'}],
             'solver_time_s': round(sum(g['solver_s'] for g in groups_ev), 2),
         },
@@ -719,28 +734,29 @@ def replay_file(prop, path):
     return 0
 
 
+def run_sabotage(name, sb, tier):
+    ru = run_unit(name, None, tier, only_groups=sb['groups'], sabotage=sb)
+    if ru['drift']:
+        return False, 'drift: ' + ru['drift']
+    failed = []
+    for r in ru['groups']:
+        for ob in r.get('failed', []):
+            failed.append('%s %s' % (ob['id'], ob['desc']))
+        if r['status'] == 'undecided':
+            failed.append('UNDECIDED ' + r['why'])
+    hit = [f for f in failed if re.search(sb['expect_fail'], f)]
+    return bool(hit), ('failed as expected: ' + hit[0][:120]) if hit else ('expected /%s/ to fail; failed: %s' % (sb['expect_fail'], failed[:3]))
+
+
 def selftest(name, tier='quick'):
     """sabotage self-test: every listed sabotage of the staged copy must make a named obligation fail"""
     unit, udir = load_unit(name)
     bad = 0
     for sb in unit.get('sabotage', []):
-        ru = run_unit(name, None, tier, only_groups=sb['groups'], sabotage=sb)
-        if ru['drift']:
-            print('SELFTEST %s/%s: drift %s' % (name, sb['name'], ru['drift']))
+        ok, detail = run_sabotage(name, sb, tier)
+        print('SELFTEST %s/%s: %s — %s' % (name, sb['name'], 'caught' if ok else 'MISSED', detail))
+        if not ok:
             bad += 1
-            continue
-        failed = []
-        for r in ru['groups']:
-            for ob in r.get('failed', []):
-                failed.append('%s %s' % (ob['id'], ob['desc']))
-            if r['status'] == 'undecided':
-                failed.append('UNDECIDED ' + r['why'])
-        hit = [f for f in failed if re.search(sb['expect_fail'], f)]
-        print('SELFTEST %s/%s: %s (%d failed obligations; expected /%s/)' % (name, sb['name'], 'caught' if hit else 'MISSED', len(failed), sb['expect_fail']))
-        if not hit:
-            bad += 1
-            for f in failed[:5]:
-                print('    ' + f)
     return 0 if bad == 0 else 2
 
 
@@ -792,12 +808,15 @@ def main(argv):
         for r in ru['groups']:
             print('== %s: %s %s (%.1fs)' % (r['group'], r['status'], r['why'], r['solver_s']))
             for o in r['obligations']:
-                if o['status'] != 'SUCCESS' or os.environ.get('VX_VERBOSE'):
+                if (o['status'] == 'FAILURE' and o['kind'] != 'vacuity-guard(must fail)') or os.environ.get('VX_VERBOSE'):
                     print('   %-8s %s  %s' % (o['status'], o['id'], o['desc'][:110]))
-            for ob in r.get('failed', []):
+            for ob in r.get('failed', [])[:int(os.environ.get('VX_SHOW', '1'))]:
                 print('   inputs:', ob.get('inputs'))
                 if ob.get('native'):
                     print('   native:', ob['native'].get('reproduced'), ob['native'].get('output', '')[-300:])
+                if os.environ.get('VX_TRACE'):
+                    for st in ob.get('trace', [])[-int(os.environ['VX_TRACE']):]:
+                        print('      ', st)
         return 0
     print('unknown command')
     return 2
